@@ -166,7 +166,10 @@ func termKind(t *Term) string {
 	return "num"
 }
 
-func attrKey(label string) (string, bool) {
+// scopedKey: the attribute a scoped spelling addresses.  `.x`, `span.x`, `resource.x` ALWAYS mean the attribute x
+// (exactly one scope prefix is stripped: `span.resource.q` is the span attribute "resource.q"); a bare word is never
+// an attribute.
+func scopedKey(label string) (string, bool) {
 	switch {
 	case strings.HasPrefix(label, "span."):
 		return label[5:], true
@@ -174,11 +177,22 @@ func attrKey(label string) (string, bool) {
 		return label[9:], true
 	case strings.HasPrefix(label, "."):
 		return label[1:], true
-	case label == "name":
-		return "name", true
 	}
 	return "", false
 }
+
+// strippedTwice mirrors AttrConditionPlanner.aggregator (documented deviant rule AggStripAll): the three scope
+// prefixes are stripped one after the other, so `span.resource.q` ends up as "q".
+func strippedTwice(label string) string {
+	label = strings.TrimPrefix(label, "span.")
+	label = strings.TrimPrefix(label, "resource.")
+	label = strings.TrimPrefix(label, ".")
+	return label
+}
+
+// errNoReference: a bare word that is neither `duration` nor `name`.  The planner is expected to reject it; if it does
+// not, the statement gives the script no meaning and nothing is compared.
+var errNoReference = fmt.Errorf("bare word is not an intrinsic this implementation stores")
 
 // Shape is the query with literals abstracted away (used to list unsupported shapes and unexplained disagreements).
 func (q *Query) Shape() string {
@@ -296,6 +310,8 @@ type Rules struct {
 	AggNullAsZero   bool // (not used on the unchanged tree) an aggregate over no numeric value is 0
 	RegexAnchored   bool // informational: =~ / !~ fully anchored
 	NeqMatchMissing bool // informational: != and !~ hold for a missing attribute
+	NameShared      bool // the span name lives in the attribute index under key "name": bare `name` and the attribute `name` (.name span.name resource.name) both read both values
+	AggStripAll     bool // the aggregator argument loses ALL leading scope prefixes one after the other (`span.resource.q` -> "q") while a condition strips one
 }
 
 // edge variants of the window: the statement says "inside the time window" and does not fix the edges
@@ -375,12 +391,43 @@ func numeric(v string) (float64, bool) {
 	return f, true
 }
 
-func (s *Span) attr(key string) (string, bool) {
-	if key == "name" {
-		return s.Name, true
+// attrValues: the values of attribute key on the span.  Every stored span carries service.name (the writer adds it);
+// the attribute `name`, if the span has one, is distinct from the span's name.
+func (s *Span) attrValues(key string) []string {
+	if v, ok := s.Attrs[key]; ok {
+		return []string{v}
 	}
-	v, ok := s.Attrs[key]
-	return v, ok
+	if key == "service.name" {
+		return []string{"svc"}
+	}
+	return nil
+}
+
+// hasKeyRow: does the attribute index hold a row with this key for the span (the span's name is stored under key
+// "name")?
+func (s *Span) hasKeyRow(key string) bool {
+	return key == "name" || len(s.attrValues(key)) > 0
+}
+
+// labelValues: what a label reads on a span.  Scoped spellings read the attribute, the bare word `name` reads the
+// span's name.  Documented deviant rule NameShared: the span name is stored in the attribute index under key "name",
+// so the intrinsic and the attribute `name` both see both values.
+func (o *oracle) labelValues(label string, s *Span) ([]string, error) {
+	if key, ok := scopedKey(label); ok {
+		vals := s.attrValues(key)
+		if key == "name" && o.rules.NameShared {
+			vals = append([]string{s.Name}, vals...)
+		}
+		return vals, nil
+	}
+	if label == "name" {
+		vals := []string{s.Name}
+		if o.rules.NameShared {
+			vals = append(vals, s.attrValues("name")...)
+		}
+		return vals, nil
+	}
+	return nil, errNoReference
 }
 
 // termHolds: does the span satisfy the term?  A condition on an attribute the span does not have is not
@@ -393,11 +440,11 @@ func (o *oracle) termHolds(t *Term, s *Span) (bool, error) {
 		}
 		return cmpNum(t.Op, float64(s.Dur), float64(d.Nanoseconds())), nil
 	}
-	key, ok := attrKey(t.Label)
-	if !ok {
-		return false, fmt.Errorf("oracle: unsupported label %s", t.Label)
+	vals, err := o.labelValues(t.Label, s)
+	if err != nil {
+		return false, err
 	}
-	v, has := s.attr(key)
+	has := len(vals) > 0
 	if isStringLit(t.Val) {
 		lit, err := unquote(t.Val)
 		if err != nil {
@@ -406,19 +453,31 @@ func (o *oracle) termHolds(t *Term, s *Span) (bool, error) {
 		if !has {
 			return o.rules.NeqMatchMissing && (t.Op == "!=" || t.Op == "!~"), nil
 		}
-		switch t.Op {
-		case "=":
-			return v == lit, nil
-		case "!=":
-			return v != lit, nil
-		case "=~", "!~":
-			re, err := compileRe(lit, o.rules.RegexAnchored)
-			if err != nil {
+		var re *regexp.Regexp
+		if t.Op == "=~" || t.Op == "!~" {
+			if re, err = compileRe(lit, o.rules.RegexAnchored); err != nil {
 				return false, err
 			}
-			return re.MatchString(v) == (t.Op == "=~"), nil
 		}
-		return false, fmt.Errorf("oracle: operator %s on a string", t.Op)
+		for _, v := range vals {
+			switch t.Op {
+			case "=":
+				if v == lit {
+					return true, nil
+				}
+			case "!=":
+				if v != lit {
+					return true, nil
+				}
+			case "=~", "!~":
+				if re.MatchString(v) == (t.Op == "=~") {
+					return true, nil
+				}
+			default:
+				return false, fmt.Errorf("oracle: operator %s on a string", t.Op)
+			}
+		}
+		return false, nil
 	}
 	f, err := strconv.ParseFloat(t.Val, 64)
 	if err != nil {
@@ -427,11 +486,12 @@ func (o *oracle) termHolds(t *Term, s *Span) (bool, error) {
 	if !has {
 		return o.rules.NeqMatchMissing && t.Op == "!=", nil
 	}
-	n, isNum := numeric(v)
-	if !isNum {
-		return false, nil
+	for _, v := range vals {
+		if n, isNum := numeric(v); isNum && cmpNum(t.Op, n, f) {
+			return true, nil
+		}
 	}
-	return cmpNum(t.Op, n, f), nil
+	return false, nil
 }
 
 func (o *oracle) exprHolds(e *Expr, s *Span) (bool, error) {
@@ -500,13 +560,13 @@ func (o *oracle) evalSelector(traces []Trace, sel *Selector, p Params, ed edges)
 		var ts []*Term
 		expr.terms(&ts)
 		for _, t := range ts {
-			if _, ok := attrKey(t.Label); ok {
+			if t.Label != "duration" {
 				gateTerms = append(gateTerms, t)
 			}
 		}
 		gateKeys = map[string]bool{}
 		if sel.Agg != nil && sel.Agg.Attr != "" && sel.Agg.Attr != "duration" {
-			if k, ok := attrKey(sel.Agg.Attr); ok {
+			if k, ok := scopedKey(sel.Agg.Attr); ok {
 				gateKeys[k] = true
 			}
 		}
@@ -539,7 +599,7 @@ func (o *oracle) evalSelector(traces []Trace, sel *Selector, p Params, ed edges)
 						}
 					}
 					for k := range gateKeys {
-						if _, has := s.attr(k); has {
+						if s.hasKeyRow(k) {
 							visible = true
 						}
 					}
@@ -562,13 +622,19 @@ func (o *oracle) evalSelector(traces []Trace, sel *Selector, p Params, ed edges)
 				case sel.Agg.Attr == "duration":
 					vals = append(vals, float64(s.Dur))
 				case sel.Agg.Attr != "":
-					k, ok := attrKey(sel.Agg.Attr)
-					if !ok {
-						return nil, fmt.Errorf("oracle: aggregated attribute %s", sel.Agg.Attr)
+					label := sel.Agg.Attr
+					if o.rules.AggStripAll {
+						label = "." + strippedTwice(label)
 					}
-					if v, has := s.attr(k); has {
+					avs, err := o.labelValues(label, s)
+					if err != nil {
+						return nil, err
+					}
+					// one value per span: the first numeric one (anyIf over the span's rows)
+					for _, v := range avs {
 						if f, isNum := numeric(v); isNum {
 							vals = append(vals, f)
+							break
 						}
 					}
 				}
